@@ -70,7 +70,10 @@ func checkPretty(t *fw.T, src string, prog *ast.Program, wantS string, cfgs []Cf
 		wit := func() map[string]any {
 			return map[string]any{"source": src, "options": c.String(), "formatted": code}
 		}
-		if !t.Guard("pretty print", wit, func() { code = c.Compile(prog).Code }) {
+		// one Compiler value per option set: "format, then format the formatted output" is done the way a formatting
+		// tool does it, with the formatter it already has (a Compiler keeps nothing from one compilation to the next)
+		k := c.compiler()
+		if !t.Guard("pretty print", wit, func() { code = k.Compile(prog).Code }) {
 			continue
 		}
 		outs[c] = code
@@ -96,7 +99,7 @@ func checkPretty(t *fw.T, src string, prog *ast.Program, wantS string, cfgs []Cf
 			continue
 		}
 		var again string
-		if !t.Guard("format the formatted output", wit, func() { again = c.Compile(po.Prog).Code }) {
+		if !t.Guard("format the formatted output", wit, func() { again = k.Compile(po.Prog).Code }) {
 			continue
 		}
 		if again != code {
@@ -317,7 +320,7 @@ func init() {
 		},
 		Teardown: closeEngine,
 		Strata: []*fw.Stratum{
-			{Name: "programs", Quick: 6000, Thorough: 50000, Run: runC06},
+			{Name: "programs", Quick: 30000, Thorough: 150000, Run: runC06},
 			{Name: "stmt-matrix", Quick: nf * nf, Thorough: nf * nf, Exhaustive: true, Run: runC06Matrix},
 		},
 	})
